@@ -85,3 +85,13 @@ func isMapType(t types.Type) bool {
 
 // ownControllerRules: R16.11 alone (imported by C17).
 func ownControllerRules(c *Ctx) { ruleOwnControllerOnly(c, "R16.11") }
+
+// inputConsumerRules: R16.3 and R16.10 alone (imported by C15: the consumer of a fan-out output keeps consuming).
+func inputConsumerRules(c *Ctx) {
+	dv := newDev(c, "R16.0")
+	if !dv.ok || dv.fn["handleInputEvents"] == nil || dv.fn["handleOpenrgb"] == nil {
+		return
+	}
+	ruleCancelAwareWaits(c, dv)
+	ruleInputConsumed(c, dv, "R16.10")
+}
